@@ -20,4 +20,7 @@ for name in sys.argv[1:]:
     for o in obs:
         if o["status"] != "discharged":
             o.pop("smt2", None)
-            print(json.dumps(o))
+            if os.environ.get("DEV_SHORT"):
+                print(o["status"], o["name"], str(o.get("detail", ""))[:int(os.environ["DEV_SHORT"])].replace("\n", " "))
+            else:
+                print(json.dumps(o))
